@@ -50,10 +50,9 @@ Judge_file_rt(c) ==
            IF c.br.ok THEN Cl("C05.blockreader", "ok") ELSE Cl("C05.blockreader", "fail"),
            \* ---- C04: the reader given nothing but the file yields the records, schema, codec, metadata
            Tri("C04.records", rd.ok /\ VEqSeq(rd.recs, expected)),
-           \* (a null-namespace type nested in a namespaced one cannot be expressed once namespaces are folded into names: Unspecified, see C13)
-           IF NullNsInside(t, <<>>) THEN Cl("C04.schema", "unspec")
-           ELSE When("C04.schema", rd.ok, LET R == Parse(rd.wschema) IN R.ok /\ CanonTree(R.t) = ct),
-           IF NullNsInside(t, <<>>) THEN Cl("C04.selfdesc", "unspec") ELSE When("C04.selfdesc", pf.ok, CanonTree(pf.t) = ct),
+           \* (a null-namespace type nested in a namespaced one keeps its "namespace": "" in the parsed form - repaired defect, see known_findings)
+           When("C04.schema", rd.ok, LET R == Parse(rd.wschema) IN R.ok /\ CanonTree(R.t) = ct),
+           When("C04.selfdesc", pf.ok, CanonTree(pf.t) = ct),
            When("C04.codec", rd.ok /\ pf.ok, rd.codec = c.codec /\ pf.codec = c.codec),
            When("C04.meta", rd.ok /\ pf.ok, /\ MetaIn(c.meta, rd.meta) /\ MetaInHeader(c.meta, pf.meta)
                                            /\ HasMetaKey(rd.meta, K_avro_schema) /\ HasMetaKey(rd.meta, K_avro_codec)),
